@@ -180,7 +180,7 @@ theorem buildAll (cfg : Cfg) (fs : FS) (hok : fsOk fs = true) (rf : AList Contri
         o7.trans p7, o8.trans p8⟩
 
 theorem loadF_files_nodup (limit : Nat) (fs : FS) :
-    ∀ (n : Nat) (todo : List String) (st : LoadSt), st.files.keys.Nodup →
+    ∀ (n : Nat) (todo : List (String × Nat)) (st : LoadSt), st.files.keys.Nodup →
       (loadF limit fs n todo st).files.keys.Nodup := by
   intro n
   induction n with
@@ -189,7 +189,8 @@ theorem loadF_files_nodup (limit : Nat) (fs : FS) :
     intro todo st h
     cases todo with
     | nil => simpa [loadF] using h
-    | cons p rest =>
+    | cons pd rest =>
+      obtain ⟨p, d⟩ := pd
       unfold loadF
       split
       · exact ih _ _ h
